@@ -59,6 +59,7 @@ NUMPY_FUNCS.update({
     "numpy.equal": "eq", "numpy.not_equal": "ne", "numpy.isfinite": "is_finite", "numpy.isinf": "is_inf",
     "numpy.isnan": "is_nan", "numpy.isposinf": "is_posinf", "numpy.isneginf": "is_neginf",
     "numpy.rint": "round", "numpy.round": "round", "make_complex": "complex", "abs": "absolute",
+    "numpy.fmax": "fmax", "numpy.fmin": "fmin", "numpy.nanmax": "fmax", "numpy.nanmin": "fmin",
 })
 
 CPP_FUNCS = {f"std::{k}": k for k in _UNARY_MATH + ["round", "copysign", "hypot", "atan2", "exp2"]}
@@ -67,6 +68,8 @@ CPP_FUNCS.update({
     "std::trunc": "truncate", "std::isfinite": "is_finite", "std::isinf": "is_inf", "std::isnan": "is_nan",
     "std::pow": "pow", "std::fmod": "remainder", "std::conj": "conjugate", "std::real": "real", "std::imag": "imag",
     "std::nextafter": "nextafter", "std::signbit": "signbit",
+    # look-alikes with a different meaning: fmax/fmin discard a NaN operand (maximum/minimum propagate the first one) and order the zeros
+    "std::fmax": "fmax", "std::fmin": "fmin", "std::fdim": "fdim", "std::remainder": "ieee_remainder",
 })
 
 XLA_FUNCS = {
